@@ -16,7 +16,9 @@ RULE = (
     "of every harness component == initialize connect+ validate update* finalize; final status FINALIZED; "
     "every adapter instance finalized exactly once; pull-based components never updated. non-trivial = >=3 "
     "components and (end off every component's step grid, or a component starting at/after end, or a "
-    "component overshooting end by more than another one's step). distinct = canonical JSON of the spec."
+    "component overshooting end by more than another one's step). Part long_chains: one dependency path of 6-12 "
+    "components (some pull-based) listed sink-first / source-first / interleaved / at random. distinct = "
+    "canonical JSON of the spec."
 )
 ASSUMPTIONS = [
     "'or finished' cannot be exercised: a component cannot report FINISHED through Component.update",
@@ -34,8 +36,10 @@ def grid_points(c, upto):
 
 
 @st.composite
-def spec_st(draw, deep=False):
-    if deep:
+def spec_st(draw, deep=False, chains=False):
+    if chains:
+        spec = draw(G.chain_spec())
+    elif deep:
         spec = draw(st.one_of(G.dag_spec(), G.dag_spec(max_models=7, max_chain=4), G.ring_spec(modes=["suff", "suff_split", "suff_multi", "dpush"], max_n=7)))
     else:
         spec = draw(st.one_of(G.dag_spec(), G.dag_spec(), G.ring_spec(modes=["suff", "suff_split", "suff_multi", "dpush"])))
@@ -89,4 +93,7 @@ def check(spec, ctx):
 
 
 def parts():
-    return [Part("compositions", check, strategy=spec_st(), strategy_thorough=spec_st(deep=True), budget={"quick": 1400, "thorough": 80000}, fuzz={"thorough": 6000})]
+    return [
+        Part("compositions", check, strategy=spec_st(), strategy_thorough=spec_st(deep=True), budget={"quick": 1400, "thorough": 80000}, fuzz={"thorough": 6000}),
+        Part("long_chains", check, strategy=spec_st(chains=True), budget={"quick": 200, "thorough": 8000}, shrink_budget=150),
+    ]
